@@ -1247,9 +1247,15 @@ impl<'a> Interp<'a> {
             }
         }
         if let Some((Some(b), order)) = before {
-            // inline retain: once per idle object, in queue order
+            // inline retain: once per idle object (the statement does not fix the visiting order)
             let ids: Vec<u32> = preds.iter().map(|p| p.0).collect();
-            if ids != order {
+            let (mut ids_sorted, mut order_sorted) = (ids.clone(), order.clone());
+            ids_sorted.sort();
+            order_sorted.sort();
+            if ids != order && ids_sorted == order_sorted {
+                self.label("retain:visited-in-another-order");
+            }
+            if ids_sorted != order_sorted {
                 self.flag(
                     "retain-coverage",
                     &["C09"],
